@@ -3,7 +3,7 @@ import os, re
 import common
 from props import C05 as _c05
 
-LEAN_MODULES = ['OpusProps.C02']
+LEAN_MODULES = ['OpusProps.C02', 'OpusProps.EndToEnd']   # EndToEnd: composition with the C06 parser, C07 pad/unpad and the C01 decoder skeleton
 GEN = ['EncTables']
 SOURCES = _c05.SOURCES + ['src/opus_decoder.c', 'celt/celt_decoder.c', 'silk/dec_API.c', 'celt/entdec.c',
                            'src/opus_multistream_decoder.c', 'src/opus_projection_decoder.c']
@@ -29,6 +29,8 @@ TRUSTED = _c05.TRUSTED
 REQUIRED_THEOREMS = ['OpusProps.C02.' + t for t in ('genToc_roundtrip', 'lowBudget_valid', 'no_internal_error',
                                                     'repack_output_parses', 'encode_wellformed', 'redundancy_mirror_silk',
                                                     'redundancy_mirror_hybrid_partial')]
+REQUIRED_THEOREMS += ['OpusProps.EndToEnd.' + t for t in ('encode_decode_duration', 'encode_decode_duration_padded',
+                                                           'encode_decode_duration_unpadded')]
 UNPROVED = [
             'redundancy_mirror for hybrid mode in full: proved as redundancy_mirror_hybrid_partial under C08 lock-step plus one '
             'contract on celt_encode_with_ec in hybrid VBR mode (min_allowed, celt_encoder.c:2303-2318: ec_tell_before + 37 <= '
